@@ -1,28 +1,41 @@
 #!/usr/bin/env python3
-"""seed_regress.py [Sxx ...]: re-runs every kept seeded change (or the named ones) against the checks
+"""seed_regress.py [-j N] [Sxx ...]: re-runs every kept seeded change (or the named ones) against the checks
 recorded in its meta.json (detected_by), in isolation (tools/seedtest_iso.py), on the CURRENT /repo HEAD
 and the CURRENT /verif. Prints one line per seed; exit 1 if a seed is no longer detected.
 A patch that no longer applies to HEAD is reported as STALE (not a miss)."""
 import json, glob, os, subprocess, sys
+from concurrent.futures import ThreadPoolExecutor
 ROOT = os.path.dirname(os.path.dirname(os.path.abspath(__file__)))
-want = set(sys.argv[1:])
-bad = 0
+args = sys.argv[1:]
+jobs = 1
+if args and args[0] == "-j":
+    jobs = int(args[1]); args = args[2:]
+want = set(args)
+dirs = []
 for d in sorted(glob.glob(os.path.join(ROOT, "seeded", "S*"))):
     sid = os.path.basename(d).split("-")[0]
     if want and sid not in want and os.path.basename(d) not in want:
         continue
+    dirs.append(d)
+
+def one(d):
     m = json.load(open(os.path.join(d, "meta.json")))
     checks = m.get("detected_by") or [m["property"]]
     r = subprocess.run([sys.executable, os.path.join(ROOT, "tools", "seedtest_iso.py"), os.path.join(d, "patch.diff")] + checks,
                        capture_output=True, text=True)
     out = r.stdout
     if "PATCH-DOES-NOT-APPLY" in out:
-        print("%-44s STALE (patch does not apply to HEAD)" % os.path.basename(d)); continue
+        return (os.path.basename(d), "STALE", "patch does not apply to HEAD")
     res = []
     for c in checks:
         line = next((l for l in out.splitlines() if l.startswith(c + ":")), c + ": ?")
-        res.append(line.split("exit=")[0] + line.split(" ")[-1] if "exit=" in line else line)
+        res.append(line)
     ok = any("DETECTED" in x for x in res)
-    print("%-44s %s   %s" % (os.path.basename(d), "ok    " if ok else "MISSED", " | ".join(res)), flush=True)
-    bad += 0 if ok else 1
+    return (os.path.basename(d), "ok" if ok else "MISSED", " | ".join(res))
+
+bad = 0
+with ThreadPoolExecutor(max_workers=jobs) as ex:
+    for name, st, info in ex.map(one, dirs):
+        print("%-52s %-6s %s" % (name, st, info), flush=True)
+        bad += 1 if st == "MISSED" else 0
 sys.exit(1 if bad else 0)
